@@ -81,7 +81,10 @@ def _case(draw, knob):
     # the class target may be nested in another class (Outer.TargetClass); creating a nested class that does not exist yet
     # is the same shape as creating a method (finding KF-N03), so core: nested only when the class is already there
     nested = "class" in states and states["class"] in ("stale", "agreeing") and draw(st.booleans())
-    return {"ir": draw(_ir()), "stale_ir": draw(_ir()), "truth": truth, "states": states, "method": method, "nested": nested}
+    return {"ir": draw(_ir()), "stale_ir": draw(_ir()), "truth": truth, "states": states, "method": method, "nested": nested,
+            "cli": draw(st.booleans()),
+            # a second file of the truth's kind, listed AFTER the truth file: it is a target like any other
+            "mirror": truth == "class" and draw(st.booleans())}
 
 
 def strategy(mode, knob=None):
@@ -90,7 +93,7 @@ def strategy(mode, knob=None):
 
 def valid(case):
     try:
-        return (isinstance(case, dict) and set(case) - {"_not_stale", "nested"} == {"ir", "stale_ir", "truth", "states", "method"}
+        return (isinstance(case, dict) and set(case) - {"_not_stale", "nested", "cli", "mirror"} == {"ir", "stale_ir", "truth", "states", "method"}
                 and isinstance(case.get("nested", False), bool) and not (case.get("nested") and case["truth"] == "class")
                 and domain.valid_ir(case["ir"]) and domain.valid_ir(case["stale_ir"]) and case["truth"] in KEYS
                 and set(case["states"]) == set(k for k in KEYS if k != case["truth"])
@@ -104,6 +107,7 @@ def case_tags(case):
     tags = {"truth=" + case["truth"], "method" if case["method"] else "toplevel"}
     if case.get("nested"):
         tags.add("nested_class")
+    tags.add("entry=cli" if case.get("cli") else "entry=api")
     given = [k for k, v in case["states"].items() if v is not None]
     tags.add("given=%d" % (len(given) + 1))
     if len(given) == 1:
@@ -204,14 +208,26 @@ def run_case(case):
         except Exception:
             return CaseResult([], tags | {"setup_failed"}, False, "the truth could not be emitted/parsed (judged by C02-C04)", evals=0)
         given = [case["truth"]] + [k for k, v in case["states"].items() if v is not None]
+        extra = {}
+        if case.get("mirror"):
+            mpath = os.path.join(d, "class_mirror.py")
+            project.write_state(mpath, "class", "stale", None, lambda: domain.to_ir(case["stale_ir"]), False)
+            extra = {"class": [mpath]}
+            tags.add("mirror")
         pre = project.snapshot(d)
         try:
-            project.run_sync(paths, case["truth"], case["method"], given, nested=case.get("nested", False))
+            project.run_sync(paths, case["truth"], case["method"], given, nested=case.get("nested", False), cli=case.get("cli", False),
+                             extra=extra)
         except BaseException as e:
             if isinstance(e, KeyboardInterrupt):
                 raise
             dd = raise_disc(e, "sync") if isinstance(e, Exception) else Disc("raise:sync:SystemExit", "sync", str(e))
             discs.append(Disc(dd.aspect, "sync", dd.detail, (), tags))
+        if extra:
+            judge_target("class", extra["class"][0], gold_case, False, tags, discs)
+            with open(paths[case["truth"]]) as f:
+                if f.read() != truth_src:
+                    discs.append(Disc("truth-modified", case["truth"], "the file named first for the truth's kind was rewritten", (), tags))
         for k, v in case["states"].items():
             if v is None:
                 continue
